@@ -351,8 +351,10 @@ class DyneOracle:
                             pts.append([p_[0] + dx * sg[0], yy[1] if kind == "hom" else p_[1] + dp * sg[1]])
                 top = float(np.max(np.real(ref.density_many(np.array(pts)))))
                 if float(np.real(ref.density(yy))) < 1e-2 * top:
-                    self.cur["skip"] = True
                     self.w.probes["skipped_near_zero_density_postselection"] += 1
+                    self.cur = None
+                    # the run ends here: the library would divide by ~0 and every later measurement would start from a NaN state
+                    raise Violation("scheduler", "ill-posed-postselection", "dictated outcome has (nearly) zero density")
             self.w.log("measure", kind=kind, mode=mode, phi=phi, select=select is not None, peaks=len(pre.w))
             return
         # ---- post
@@ -534,7 +536,7 @@ class DyneOracle:
         if name == "choice":
             a = np.asarray(args[0])
             p = np.asarray(kwargs.get("p"), dtype=float)
-            if abs(p.sum() - 1) > 1e-9 or (p < -1e-15).any():
+            if not np.isfinite(p).all() or abs(p.sum() - 1) > 1e-9 or (p < -1e-15).any():
                 self.w.violation("born", "bosonic-proposal-weights", {"p": p.tolist()}, feats)
                 raise Violation("born", "bosonic-proposal-weights", "stop")
             cur["choice_a"], cur["choice_p"] = a, p
